@@ -420,6 +420,14 @@ impl Document {
         let mut remove_indices = VecDeque::with_capacity(matches.len());
 
         for m in matches {
+            // Only condense tokens that are contiguous in the source text.
+            if !self.tokens[m.start..m.end]
+                .windows(2)
+                .all(|w| w[0].span.end == w[1].span.start)
+            {
+                continue;
+            }
+
             remove_indices.extend(m.start + 1..m.end);
             self.tokens[m.start].span = self.tokens[m.into_iter()].span().unwrap();
             edit(&mut self.tokens[m.start]);
